@@ -95,6 +95,12 @@ func (s sccpState) eq(o sccpState) bool {
 }
 
 func sccp(fn *ssa.Function, seedVals map[ssa.Value]constant.Value, cells []sccpCellSpec, mayClobber func(call ssa.CallInstruction) bool) *sccpResult {
+	return sccpRun(fn, seedVals, cells, nil, mayClobber, 0)
+}
+
+// sccpRun is sccp with an explicit initial cell state (used when the
+// propagation descends into a module function called with the cells live).
+func sccpRun(fn *ssa.Function, seedVals map[ssa.Value]constant.Value, cells []sccpCellSpec, initState sccpState, mayClobber func(call ssa.CallInstruction) bool, depth int) *sccpResult {
 	res := &sccpResult{Exit: map[*ssa.Return][]lat{}, Reached: map[*ssa.BasicBlock]bool{}, Clobber: make([]ssa.Instruction, len(cells)), Vals: map[ssa.Value]lat{}}
 	in := map[*ssa.BasicBlock]sccpState{}
 	entry := fn.Blocks[0]
@@ -105,6 +111,9 @@ func sccp(fn *ssa.Function, seedVals map[ssa.Value]constant.Value, cells []sccpC
 		} else {
 			st0[i] = latTop
 		}
+	}
+	if initState != nil {
+		st0 = initState.clone()
 	}
 	in[entry] = st0
 	res.Reached[entry] = true
@@ -190,6 +199,10 @@ func sccp(fn *ssa.Function, seedVals map[ssa.Value]constant.Value, cells []sccpC
 						if sccpComparable(a.val, bb.val) {
 							vals[x] = latConst(constant.MakeBool(constant.Compare(a.val, x.Op, bb.val)))
 						}
+					case token.ADD, token.SUB, token.MUL:
+						if a.val.Kind() == constant.Int && bb.val.Kind() == constant.Int {
+							vals[x] = latConst(constant.BinaryOp(a.val, x.Op, bb.val))
+						}
 					}
 				}
 			case *ssa.Convert:
@@ -199,6 +212,57 @@ func sccp(fn *ssa.Function, seedVals map[ssa.Value]constant.Value, cells []sccpC
 			case *ssa.ChangeType:
 				if _, seeded := seedVals[x]; !seeded {
 					vals[x] = valOf(x.X)
+				}
+			case *ssa.Call:
+				// descend into module helpers (e.g. an extracted predicate): their result and
+				// their effect on the cells are computed with the current cell state
+				if callee := x.Call.StaticCallee(); callee != nil && callee.Blocks != nil && depth < 3 && callee != fn && inSSEPackage(callee) && len(callee.Params) == len(x.Call.Args) {
+					seeds := map[ssa.Value]constant.Value{}
+					for i, a := range x.Call.Args {
+						if l := valOf(a); l.kind == 1 {
+							seeds[callee.Params[i]] = l.val
+						}
+					}
+					sub := sccpRun(callee, seeds, cells, state, mayClobber, depth+1)
+					var ret lat
+					var exit sccpState
+					for r, st := range sub.Exit {
+						if len(r.Results) == 1 {
+							v := r.Results[0]
+							var l lat
+							if cst, ok := v.(*ssa.Const); ok && cst.Value != nil {
+								l = latConst(cst.Value)
+							} else if lv, ok := sub.Vals[v]; ok {
+								l = lv
+							} else {
+								l = latTop
+							}
+							ret = ret.join(l)
+						}
+						exit = exit.join(sccpState(st))
+					}
+					if exit != nil {
+						for i := range state {
+							state[i] = exit[i]
+						}
+					}
+					if ret.kind != 0 {
+						vals[x] = ret
+					}
+					for i, cl := range sub.Clobber {
+						if cl != nil && res.Clobber[i] == nil {
+							res.Clobber[i] = cl
+						}
+					}
+					continue
+				}
+				if mayClobber != nil && mayClobber(x) {
+					for i := range cells {
+						state[i] = latTop
+						if res.Clobber[i] == nil {
+							res.Clobber[i] = x
+						}
+					}
 				}
 			case ssa.CallInstruction:
 				if mayClobber != nil && mayClobber(x) {
